@@ -44,6 +44,9 @@ def generate(seed, stratum, tier):
       ops, weights = ('ev', 'read', 'defer', 'recall', 'rtc'), (6, 1, 1, 1, 2)
   if combo[0] in ('queued', 'ao', 'factory') and rng.random() < 0.3:
     ops, weights = tuple(ops) + ('clear_trace', 'clear_spy'), tuple(weights) + (0.7, 0.3)
+  if rng.random() < 0.3:
+    # is_in/child_state asked between steps: what the next record says must not depend on them
+    ops, weights = tuple(ops) + ('is_in', 'child'), tuple(weights) + (1.5, 1.5)
   sc = cc.gen_chart_scenario(rng, combos=[combo], spec_kw=kw, ops=ops, weights=weights, nops=(4, 30), flags=False)
   if combo[0] == 'queued' and rng.random() < 0.2:
     sc['pre_start'] = [['defer', rng.choice(sc['spec']['signals'])]]
